@@ -229,6 +229,11 @@ def call_numpy(it, tail, args, kwargs, env, node, chain):
         numv = a[2] if len(a) > 2 else kw(kwargs, "num", num(50))
         endpoint = kw(kwargs, "endpoint", True)
         return op("linspace", t[0], t[1], to_term(numv), to_term(endpoint))
+    if tail == "fft.rfftfreq":
+        # n//2 + 1 bins from 0 up to and including the Nyquist frequency 1/(2d) (n even)
+        nn = t[0]
+        d = t[1] if len(t) > 1 else to_term(kw(kwargs, "d", num(1)))
+        return op("linspace", num(0), 1 / (2 * d), op("floordiv", nn, num(2)) + 1, to_term(True))
     if tail == "arange":
         return op("arange", *t)
     if tail in ("zeros", "ones", "empty"):
